@@ -16,20 +16,29 @@ type sym struct {
 	val    uint64
 	alt    int    // re-signed variant
 	signer string // "" = the device itself
+	rel    int    // 1: val is an offset from the device's limit cap*135/100 (0 = limit, 1 = limit+1, ...)
+}
+
+// valFor gives the concrete value of a symbol for a device of the given capacity.
+func (a sym) valFor(cap uint64) uint64 {
+	if a.rel != 0 {
+		return cap*135/100 + a.val
+	}
+	return a.val
 }
 
 func slotAlphabet() []sym {
 	return []sym{
-		{"two", 2, 0, ""},
-		{"a", 50, 0, ""},
-		{"b", 60, 0, ""},
-		{"a-resigned", 50, 1, ""},
-		{"limit", 135, 0, ""},
-		{"limit+1", 136, 0, ""},
-		{"neg", math.MaxUint64 - 4, 0, ""},
-		{"huge", math.MaxInt64 - 1, 0, ""},
-		{"maxint", math.MaxInt64, 0, ""},
-		{"minneg", math.MaxInt64 + 1, 0, ""},
+		{"two", 2, 0, "", 0},
+		{"a", 50, 0, "", 0},
+		{"b", 60, 0, "", 0},
+		{"a-resigned", 50, 1, "", 0},
+		{"limit", 0, 0, "", 1},
+		{"limit+1", 1, 0, "", 1},
+		{"neg", math.MaxUint64 - 4, 0, "", 0},
+		{"huge", math.MaxInt64 - 1, 0, "", 0},
+		{"maxint", math.MaxInt64, 0, "", 0},
+		{"minneg", math.MaxInt64 + 1, 0, "", 0},
 	}
 }
 
@@ -82,10 +91,13 @@ func runSlot(c *ctx) error {
 		if err := s.fresh(fmt.Sprintf("slot/exh/%d", i/perScn), t0); err != nil {
 			return err
 		}
-		if err := s.device(1, "d1", 100); err != nil {
+		// capacities that are and are not multiples of 100, one below 100: the limit is cap*135/100 in integers
+		capsets := [][2]uint64{{100, 1050}, {137, 99}, {12345, 100}}
+		caps := capsets[(i/perScn)%len(capsets)]
+		if err := s.device(1, "d1", caps[0]); err != nil {
 			return err
 		}
-		if err := s.device(2, "d2", 100); err != nil {
+		if err := s.device(2, "d2", caps[1]); err != nil {
 			return err
 		}
 		for j := i; j < i+perScn && j < len(seqs); j++ {
@@ -94,7 +106,7 @@ func runSlot(c *ctx) error {
 			ts := uint32(t0 - 400 + (j-i)*30)
 			for _, k := range seqs[j] {
 				a := alpha[k]
-				s.Deliver(s.ReportBytes(id, ts, a.val, key, a.alt))
+				s.Deliver(s.ReportBytes(id, ts, a.valFor(caps[id-1]), key, a.alt))
 				nev++
 			}
 		}
@@ -119,8 +131,9 @@ func runSlot(c *ctx) error {
 			if err := s.fresh(fmt.Sprintf("slot/rand/%d/%d", r, perm), t0); err != nil {
 				return err
 			}
+			rcaps := []uint64{0, 100, 1337, 60 + uint64(r)}
 			for id := uint32(1); id <= 3; id++ {
-				if err := s.device(id, fmt.Sprintf("d%d", id), 100); err != nil {
+				if err := s.device(id, fmt.Sprintf("d%d", id), rcaps[id]); err != nil {
 					return err
 				}
 			}
@@ -128,7 +141,7 @@ func runSlot(c *ctx) error {
 			for _, i := range order {
 				m := multi[i]
 				a := alpha[m.k]
-				b := s.ReportBytes(m.id, m.ts, a.val, fmt.Sprintf("d%d", m.id), a.alt)
+				b := s.ReportBytes(m.id, m.ts, a.valFor(rcaps[m.id]), fmt.Sprintf("d%d", m.id), a.alt)
 				if c.rng.Intn(5) == 0 {
 					s.SendUDP(b)
 				} else {
